@@ -63,3 +63,16 @@ func VerifSnap(sk *SpaceKeeper, nolock bool) VerifSnapshot {
 	}
 	return s
 }
+
+// VerifQuitClosed reports whether the keeper's quit channel has been closed (OnStop has begun).
+func VerifQuitClosed(sk *SpaceKeeper) bool {
+	if sk.quit == nil {
+		return false
+	}
+	select {
+	case <-sk.quit:
+		return true
+	default:
+		return false
+	}
+}
